@@ -24,6 +24,8 @@ RULES_DOC = dict(common.SHARED_DOC)
 RULES_DOC["X4"] = common.X4_DOC
 RULES_DOC["R7"] = "a scheduler is marked used = ABTI_SCHED_MAIN before it is installed as a stream's main scheduler (every store of a scheduler into ABTI_xstream::p_main_sched is preceded on its path by that store on the same scheduler): a running main scheduler cannot be given to a second stream or freed"
 RULES_DOC["X5"] = common.X5_DOC
+RULES_DOC["R8"] = "rank list insertion: on every path of xstream_add_xstream_list the inserted stream's forward link is assigned, and its backward link is assigned unless it becomes the head (a stream re-inserted by ABT_xstream_set_rank carries no stale link: no cycle, no walk into freed memory)"
+RULES_DOC["R9"] = "= C06.R1/R3/R4: the callback that suspends a ULT for a main-scheduler replacement counts it on the pool it belongs to after request handling (a stream whose pool count is off by one can never be joined, its rank is never returned)"
 RULES_DOC.update({
     "R1": "stream list mutations, rank stores, num_xstreams updates and list scans hold xstream_list_lock",
     "R2": "duplicate scan and insertion in one critical section; duplicate arm: release, return FALSE, list untouched",
@@ -448,6 +450,40 @@ def rule_R7(P, rep):
     rep.need(n >= 4, "only %d installations of a main scheduler found" % n)
 
 
+def rule_R8(P, rep):
+    F = P.fn("xstream_add_xstream_list", "src/stream.c")
+    newp = [p["n"] for p in F.params if p["t"].replace(" ", "") == "ABTI_xstream*"]
+    rep.need(len(newp) == 1, "xstream_add_xstream_list: parameters %s" % F.params)
+    new = newp[0]
+    sel = seq.Sel(fields={"ABTI_xstream::p_next", "ABTI_xstream::p_prev", "ABTI_global::p_xstream_head"}, canon=True, locks=False)
+    n = 0
+    for toks, kind, rv, rtxt in seq.sequences(F, sel, max_repeat=2, max_len=60):
+        if kind != "ret":
+            continue
+        n += 1
+        mine = {}
+        head = False
+        for t in toks:
+            if t[0] != "st":
+                continue
+            nd = F.nodes[t[-1]]
+            root = canon.rooted(F, nd["lh"])
+            if root == "%s->p_next" % new:
+                mine["p_next"] = True
+            if root == "%s->p_prev" % new:
+                mine["p_prev"] = True
+            if t[1] == "ABTI_global::p_xstream_head" and canon.rooted(F, nd["rh"]) == new:
+                head = True
+        why = []
+        if not mine.get("p_next"):
+            why.append("the forward link of the inserted stream is not assigned (a stale p_next survives a re-insertion)")
+        if not mine.get("p_prev") and not head:
+            why.append("the backward link of the inserted stream is not assigned")
+        rep.ob("R8", "add_xstream_list path links the inserted stream completely (%s%s)" % (sorted(mine), ", head" if head else ""),
+               not why, "; ".join(why), loc="%s:%d" % (F.file, F.line), site="add_xstream_list/%s/%s" % (sorted(mine), head))
+    rep.need(n >= 3, "xstream_add_xstream_list: %d paths" % n)
+
+
 def run(P, rep, tier):
     common.rule_widths(P, rep, [('ABTI_global', 'num_xstreams'), ('ABTI_xstream', 'rank')])
     common.rule_X4(P, rep)
@@ -457,3 +493,5 @@ def run(P, rep, tier):
     rule_R5(P, rep)
     rule_R6(P, rep)
     rule_R7(P, rep)
+    rule_R8(P, rep)
+    common.borrow(rep, P, C06.rule_R1_R3_R4, "R9")
